@@ -10,10 +10,21 @@
    merged record carried.  The replication layers the cluster-level argument rests on
    are the theorems of C02 (exact advertisement), C03 (seq ranges), C04 (requests
    are complete), C05 (answers are exact), C06 (restart), C07 (local versions),
-   C08 (tiling), C10 (nothing lost for good).  The cluster-level statement itself is
-   checked on clusters of real agents (see the evidence), not proved. *)
+   C08 (tiling), C10 (nothing lost for good).  CLUSTER LEVEL (Model/Cluster.v: nodes holding
+   a CRDT database and the set of versions they know in full; a server hands out the records
+   of a version that are still live in its database, versions become visible as a whole):
+   in every reachable state a node that knows every acknowledged version shows exactly the
+   merge of all acknowledged records, whoever served it what (C01_cluster_quiescent_node_shows_the_merge),
+   so all such nodes agree; a version a node lacks can always be fetched from a node that
+   knows it.  The theorem excludes histories in which two records for one row cannot be
+   ordered by the merge -- two DELETEs of the same row by different nodes at the same causal
+   length -- and that exclusion is necessary: C01_concurrent_deletes_refuted is a history
+   of the model in which every node knows everything and one node keeps the row; it replays
+   on three real agents (known finding concurrent-deletes, corpus/C01).  The cluster model's
+   serve rule and whole-version visibility are tied to the code by C03/C05 and by the
+   cluster runs on real agents (see the evidence). *)
 From Coq Require Import List ZArith Bool Lia.
-From Corro Require Import Model.Crdt Model.CrdtSpec Proofs.CrdtProofs Proofs.ConvergeProofs.
+From Corro Require Import Model.Crdt Model.CrdtSpec Model.Cluster Proofs.CrdtProofs Proofs.ConvergeProofs Proofs.LiveProofs Proofs.ClusterProofs.
 Import ListNotations.
 Open Scope Z_scope.
 
@@ -151,3 +162,116 @@ Example C01_resurrect_shape :
   dget 2 (merge (merge [] own) r) =
     Some (mkRow 3 (Some (mkClk 1 3 0)) (Some (mkCell 7517 2 (mkClk 1 3 0)))).
 Proof. vm_compute. reflexivity. Qed.
+
+(* ---------------------------------------------------------------------------------------
+   CLUSTER LEVEL.  crun n ops: n nodes, any sequence of local transactions (Local i rs: node i
+   commits a transaction with change records rs) and of deliveries (Pull i j x extra: node i
+   obtains version x from node j, which hands out the records of x that are still live in its
+   own database -- a relay or a sync server -- plus possibly some superseded ones; a version
+   becomes visible as a whole: C03).  U = every record of every acknowledged transaction.
+   Hypotheses on U: wf (as above), clk_unique (a clock position names one record) and no_tie
+   (no two different records for one row that the merge cannot order: two deletes with the
+   same causal length, or two equal values from one site).
+   A node that knows every acknowledged version -- heads equal, nothing needed, nothing
+   partial: what generate_sync shows at quiescence -- shows the merge of ALL acknowledged
+   records, although what it merged may lack every record that was superseded at whichever
+   node served it. *)
+Theorem C01_cluster_quiescent_node_shows_the_merge : forall n ops i nd,
+  let s := crun n ops in
+  let U := all_recs (c_log s) in
+  wf U -> no_tie U = true -> clk_unique U = true ->
+  nth_error (c_nodes s) i = Some nd -> knows_all (c_log s) nd = true ->
+  table (n_db nd) = table (merge_all [] U) /\ versions (n_db nd) = versions (merge_all [] U).
+Proof. exact cluster_quiescent_converges. Qed.
+Print Assumptions C01_cluster_quiescent_node_shows_the_merge.
+
+Theorem C01_cluster_quiescent_nodes_agree : forall n ops i1 nd1 i2 nd2,
+  let s := crun n ops in
+  let U := all_recs (c_log s) in
+  wf U -> no_tie U = true -> clk_unique U = true ->
+  nth_error (c_nodes s) i1 = Some nd1 -> knows_all (c_log s) nd1 = true ->
+  nth_error (c_nodes s) i2 = Some nd2 -> knows_all (c_log s) nd2 = true ->
+  table (n_db nd1) = table (n_db nd2) /\ versions (n_db nd1) = versions (n_db nd2).
+Proof. exact cluster_quiescent_nodes_agree. Qed.
+Print Assumptions C01_cluster_quiescent_nodes_agree.
+
+(* no value from nowhere, cluster level, for EVERY history (no hypothesis): what a node shows
+   is the merge of records of acknowledged transactions only *)
+Theorem C01_cluster_nodes_merge_only_acknowledged_records : forall n ops i nd,
+  nth_error (c_nodes (crun n ops)) i = Some nd ->
+  n_db nd = merge_all [] (n_merged nd) /\ incl (n_merged nd) (all_recs (c_log (crun n ops))).
+Proof. exact cluster_merged_is_acknowledged. Qed.
+Print Assumptions C01_cluster_nodes_merge_only_acknowledged_records.
+
+(* progress: a version a node lacks can be fetched in one session from any node that knows it
+   (its origin always does), and nothing it knew is lost *)
+Theorem C01_cluster_missing_version_can_be_fetched : forall s i j x n m vx,
+  nth_error (c_nodes s) i = Some n -> nth_error (c_nodes s) j = Some m -> nth_error (c_log s) x = Some vx ->
+  knows m x = true -> knows n x = false ->
+  exists n', nth_error (c_nodes (cstep s (Pull i j x []))) i = Some n' /\ knows n' x = true /\
+             (forall y, knows n y = true -> knows n' y = true) /\ c_log (cstep s (Pull i j x [])) = c_log s.
+Proof. exact cluster_pull_makes_known. Qed.
+Print Assumptions C01_cluster_missing_version_can_be_fetched.
+
+(* the step the cluster theorem rests on, for every merge order: a record a node merged and no
+   longer attributes a clock row to is strictly below another record it merged (or is a
+   re-insert marker of the newest generation it has seen) *)
+Theorem C01_a_record_no_longer_served_was_superseded : forall Q k r,
+  (forall r, In r Q -> r_row r = k) -> forallb rec_ok Q = true ->
+  pairwise tie Q -> pairwise clk_clash Q ->
+  In r Q -> live_row (stL Q) r = false ->
+  (exists r', In r' Q /\ sdom r r' = true) \/ pending Q r.
+Proof. exact not_live_is_below. Qed.
+Print Assumptions C01_a_record_no_longer_served_was_superseded.
+
+Definition cd_ins := mkRec 1 false 100 1 1 0 1 0.     (* node 0 inserts row 1 *)
+Definition cd_delA := mkRec 1 true 0 1 2 0 2 0.       (* node 0 deletes it *)
+Definition cd_delB := mkRec 1 true 0 1 2 1 1 0.       (* node 1 deletes it concurrently *)
+Definition cd_ops : list cop :=
+  [Local 0 [cd_ins]; Pull 1 0 0 []; Pull 2 0 0 [];
+   Local 0 [cd_delA]; Local 1 [cd_delB];
+   Pull 1 0 1 []; Pull 0 1 2 [];       (* the two deleters exchange their deletes: each keeps its own *)
+   Pull 2 0 2 [];                      (* node 2 asks node 0 for node 1's delete: not live there, "cleared" *)
+   Pull 2 1 1 []].                     (* ... and node 1 for node 0's delete: not live there either *)
+
+(* KNOWN FINDING concurrent-deletes: the no_tie hypothesis is necessary.  Every node knows
+   every version, the record set is well-formed, and node 2 still shows the row that nodes
+   0 and 1 deleted. *)
+Theorem C01_concurrent_deletes_refuted :
+  let s := crun 3 cd_ops in
+  let U := all_recs (c_log s) in
+  wf U /\ clk_unique U = true /\ no_tie U = false /\
+  forallb (knows_all (c_log s)) (c_nodes s) = true /\
+  map (fun nd => table (n_db nd)) (c_nodes s) = [[]; []; [(1, Some 100)]].
+Proof.
+  cbv zeta. split.
+  - intros k. destruct (Z.eq_dec k 1) as [->|H1]; [vm_compute; reflexivity|].
+    assert (E : all_recs (c_log (crun 3 cd_ops)) = [cd_ins; cd_delA; cd_delB]) by (vm_compute; reflexivity).
+    rewrite E. unfold on_row. cbn [filter r_row cd_ins cd_delA cd_delB].
+    destruct (1 =? k) eqn:E1; [apply Z.eqb_eq in E1; congruence|]. reflexivity.
+  - vm_compute. repeat split; reflexivity.
+Qed.
+Print Assumptions C01_concurrent_deletes_refuted.
+
+(* the cluster theorem's hypotheses are met by a history with conflicting writes on two nodes,
+   a delete, a re-insert, and a third node that is served by relays which had already
+   superseded part of what they hand out *)
+Definition cv_a := mkRec 1 false 5 1 1 0 1 0.         (* node 0 writes 5 *)
+Definition cv_b := mkRec 1 false 7 1 1 1 1 0.         (* node 1 writes 7 concurrently *)
+Definition cv_x := mkRec 1 true 0 2 2 0 2 0.          (* node 0 deletes *)
+Definition cv_s := mkRec 1 true 0 3 3 1 2 0.          (* node 1 re-inserts: marker ... *)
+Definition cv_c := mkRec 1 false 9 1 3 1 2 1.         (* ... and value 9 *)
+Definition cv_o := mkRec 2 false 1 1 1 0 3 0.         (* node 0 writes another row *)
+Definition cv_ops : list cop :=
+  [Local 0 [cv_a]; Local 1 [cv_b]; Pull 1 0 0 []; Pull 0 1 1 [];
+   Local 0 [cv_x]; Pull 1 0 2 []; Local 1 [cv_s; cv_c]; Local 0 [cv_o];
+   Pull 0 1 3 []; Pull 1 0 4 [];
+   Pull 2 1 0 []; Pull 2 0 1 []; Pull 2 1 2 []; Pull 2 0 3 []; Pull 2 1 4 []].
+Example C01_cluster_nonvacuous :
+  let s := crun 3 cv_ops in
+  let U := all_recs (c_log s) in
+  no_tie U = true /\ clk_unique U = true /\
+  forallb (knows_all (c_log s)) (c_nodes s) = true /\
+  map (fun nd => length (n_merged nd)) (c_nodes s) = [6%nat; 6%nat; 3%nat] /\
+  map (fun nd => table (n_db nd)) (c_nodes s) = [[(1, Some 9); (2, Some 1)]; [(1, Some 9); (2, Some 1)]; [(1, Some 9); (2, Some 1)]].
+Proof. vm_compute. repeat split; reflexivity. Qed.
